@@ -1,5 +1,5 @@
 SPECIFICATION Spec
-CONSTANT MaxN = 3
+CONSTANT MaxN = 4
 INVARIANTS RoundTrip Between Monotone PairExact PairValidity
 ACTION_CONSTRAINT Emit
 CHECK_DEADLOCK FALSE
